@@ -24,6 +24,9 @@ F_SERIAL = ["RModel.Facts.serialCookie_spec", "RModel.Facts.serialCookieNoRun_sp
             "RModel.Facts.arrayDefaultMaxSize_spec", "RModel.Facts.maxCapacity_spec", "RModel.Facts.bitmap_sizes",
             "RModel.Facts.getSizeInBytesFromCardinality_spec", "RModel.Facts.run_size_constants",
             "RModel.Facts.runContainer16SerializedSizeInBytes_spec", "RModel.Facts.arrayContainerSizeInBytes_spec"]
+PINS = ["RModel.Facts.arrayMax_pinned", "RModel.Facts.lazyLowerBound_pinned", "RModel.Facts.invalidCardinality_pinned",
+        "RModel.Facts.efficient_sizes_pinned"]
+PINS_MOD = "RProofs.Facts.Pins"
 F_THRESH = ["RModel.Facts.arrayDefaultMaxSize_spec", "RModel.Facts.maxCapacity_spec", "RModel.Facts.bitmap_sizes",
             "RModel.Facts.invalidCardinality_spec", "RModel.Facts.maxUint_spec"]
 
@@ -86,12 +89,12 @@ L1_XFORM = ["RModel.BSet.mem_shift", "RModel.BSet.canon_shift", "RModel.BSet.mem
 
 PROPS = {
     "C01": {"suites": [("alg", 1.0), ("kern", 0.3), ("kernspecial", 1.0), ("kernthresh", 0.5), ("popcnt", 1.0), ("kernl2", 0.5), ("l2rep", 0.5), ("kernmutbin", 0.3), ("l2mut", 0.3)],
-            "theorems": L1_ALGEBRA + F_THRESH + L2_CONT + L2_REP + L2_IBIN + L2_REPIBIN,
-            "modules": DEFAULT_MODULES + [FACTS, "RProofs.ContOps", "RProofs.RepOps", "RProofs.ContMut", "RProofs.RepMut"],
+            "theorems": L1_ALGEBRA + F_THRESH + L2_CONT + L2_REP + L2_IBIN + L2_REPIBIN + PINS,
+            "modules": DEFAULT_MODULES + [FACTS, PINS_MOD, "RProofs.ContOps", "RProofs.RepOps", "RProofs.ContMut", "RProofs.RepMut"],
             "owns": {"and", "or", "xor", "andnot", "iand", "ior", "ixor", "iandnot", "andcard", "orcard", "isect", "eq", "dig",
                      "kern", "popcnt", "l2op", "l2iop"}},
-    "C02": {"suites": [("hist", 1.0), ("kernmut", 0.4), ("l2mut", 0.6)], "theorems": L1_MUT + L1_ALGEBRA[:3] + F_THRESH + L2_MUT + L2_REPMUT,
-            "modules": DEFAULT_MODULES + [FACTS, "RProofs.ContMut", "RProofs.RepMut"],
+    "C02": {"suites": [("hist", 1.0), ("kernmut", 0.4), ("l2mut", 0.6)], "theorems": L1_MUT + L1_ALGEBRA[:3] + F_THRESH + L2_MUT + L2_REPMUT + PINS,
+            "modules": DEFAULT_MODULES + [FACTS, PINS_MOD, "RProofs.ContMut", "RProofs.RepMut"],
             "owns": {"new", "add", "cadd", "addint", "addmany", "addmanyfrom", "rem", "crem", "addr", "remr", "flip", "clear", "opt", "clone",
                      "cowclone", "detach", "setcow", "dig", "card", "empty", "of", "kern", "l2mut"}},
     "C03": {"suites": [("query", 1.0), ("kernq", 0.3), ("eqpairs", 0.5), ("kernq2", 0.3)], "theorems": L1_QUERY + L2_QUERY,
@@ -127,8 +130,8 @@ PROPS = {
                          "RModel.Impl.detach_no_foreign'", "RModel.Impl.safe_reachable", "RModel.Impl.hdrLocal_run"],
             "owns": None},
     "C09": {"suites": [("hist", 1.0), ("alg", 0.7), ("xform", 0.7), ("ser", 0.5), ("kernwf", 1.0), ("kernthresh", 1.0), ("thresh", 0.5), ("agg", 0.5), ("kernl2", 0.5), ("l2rep", 0.3), ("kernmut", 0.3), ("l2mut", 0.3), ("l2xform", 0.3), ("frozen", 0.3)],
-            "theorems": ["RModel.Impl.wf_implies_validate", "RModel.Impl.validate_implies_wf_of_decoded", "RModel.BSet.canon_ext"] + F_THRESH + L2_CONT[4:8] + L2_REP[5:] + L2_MUT_WF + L2_REPMUT_WF + [L2_XFORM[1], L2_XFORM[3], L2_XFORM[7]],
-            "modules": DEFAULT_MODULES + [FACTS, "RProofs.Properties.C09", "RProofs.ContOps", "RProofs.RepOps", "RProofs.ContMut", "RProofs.RepMut", "RProofs.RepXform"],
+            "theorems": ["RModel.Impl.wf_implies_validate", "RModel.Impl.validate_implies_wf_of_decoded", "RModel.BSet.canon_ext"] + F_THRESH + L2_CONT[4:8] + L2_REP[5:] + L2_MUT_WF + L2_REPMUT_WF + [L2_XFORM[1], L2_XFORM[3], L2_XFORM[7]] + PINS,
+            "modules": DEFAULT_MODULES + [FACTS, PINS_MOD, "RProofs.Properties.C09", "RProofs.ContOps", "RProofs.RepOps", "RProofs.ContMut", "RProofs.RepMut", "RProofs.RepXform"],
             # a library-written stream read back must validate: `rd` lines whose Go side reports an invalid bitmap are C09's
             "owns_fn": lambda op, mm, suite: op in ("wf", "kernwf", "l2op", "l2mut", "l2iop", "l2off", "l2sflip", "l2fromdense") or (op in ("rd", "fview") and "invalid:" in mm.get("got", ""))
             or (op in AGG_OPS and "valid=no" in mm.get("got", "")),
@@ -138,8 +141,8 @@ PROPS = {
                          "RModel.Impl.decoded_valid_is_wf", "RModel.Impl.validate_implies_wf_of_decoded",
                          "RModel.Impl.frozenView_no_panic", "RModel.BSet.canon_ext"] + F_SERIAL,
             "modules": DEFAULT_MODULES + [FACTS, "RProofs.Properties.C09", "RProofs.Properties.C05", "RProofs.Properties.C13"], "owns": None},
-    "C11": {"suites": [("agg", 1.0), ("kernspecial", 0.6), ("l2agg", 0.7)], "theorems": L1_AGG + L1_ALGEBRA + L2_AGG,
-            "modules": DEFAULT_MODULES + ["RProofs.Agg", "RProofs.LazyOps"], "owns": set(AGG_OPS) | {"kern", "l2agg", "l2lazy"}},
+    "C11": {"suites": [("agg", 1.0), ("kernspecial", 0.6), ("l2agg", 0.7)], "theorems": L1_AGG + L1_ALGEBRA + L2_AGG + PINS,
+            "modules": DEFAULT_MODULES + ["RProofs.Agg", "RProofs.LazyOps", PINS_MOD], "owns": set(AGG_OPS) | {"kern", "l2agg", "l2lazy"}},
     # C12: schedule independence / termination / no leak (sched), concurrent decoding through the pools (concdec); the
     # protocol theorems are about the transition systems of Impl/Par.lean, pinned to the source by the skeleton obligations
     "C12": {"suites": [("sched", 1.0)], "theorems": PAR + L1_AGG[:3],
